@@ -1720,7 +1720,7 @@ pub fn run(c: &mut Ctx) {
         if c.out_of_time() {
             break;
         }
-        ctx::slot_write(idx, "C14 rollover", &[]);
+        ctx::slot_write(idx, &format!("{}|case", fam), &[]);
         rollover_case(c, &rt, fam, idx);
     }
     let fam = "worlds";
@@ -1729,7 +1729,7 @@ pub fn run(c: &mut Ctx) {
         if c.out_of_time() {
             break;
         }
-        ctx::slot_write(idx, "C14 world", &[]);
+        ctx::slot_write(idx, &format!("{}|case", fam), &[]);
         one_world(c, &rt, fam, idx);
     }
     if !c.replaying() {
